@@ -6,6 +6,7 @@ import (
 
 	"github.com/LemoFoundationLtd/lemochain-core/chain/consensus"
 	"github.com/LemoFoundationLtd/lemochain-core/chain/deputynode"
+	"github.com/LemoFoundationLtd/lemochain-core/chain/miner"
 	"github.com/LemoFoundationLtd/lemochain-core/chain/params"
 	"github.com/LemoFoundationLtd/lemochain-core/chain/types"
 	"github.com/LemoFoundationLtd/lemochain-core/common"
@@ -183,6 +184,23 @@ func c13(c *Ctx) {
 				}
 				from, to := consensus.GetNextMineWindow(h, d, pt, now, T, dm)
 				c.Op(fmt.Sprintf("win %d %d %d %d %d", n, d, pt, now, T), fmt.Sprintf("%d %d", from, to))
+				// miner.getSleepTime: wake-up instant and deadline
+				bi := int64(c.Rnd.Intn(int(T)))
+				if c.Rnd.Intn(8) == 0 {
+					bi = T + int64(c.Rnd.Intn(2000)) // misconfigured: interval not shorter than the slot
+				}
+				mn := miner.New(miner.MineConfig{SleepTime: bi, Timeout: T, ReservedPropagationTime: 0}, nil, dm, nil)
+				wait, dl := mn.VerifGetSleepTime(h, d, pt, now)
+				c.Op(fmt.Sprintf("sleep %d %d %d %d %d %d", n, d, pt, now, T, bi), fmt.Sprintf("%d %d", wait, dl))
+				if bi < T {
+					wake := now + wait
+					if wait < 0 || dl != to || wake < from || wake >= to {
+						c.Fail("c13/sleep-outside-window", fmt.Sprintf("getSleepTime wakes at %d (wait %d, deadline %d) but the window is [%d,%d): n=%d d=%d pt=%d now=%d T=%d interval=%d", wake, wait, dl, from, to, n, d, pt, now, T, bi), nil)
+					}
+					c.Count("sleep:checked")
+				} else {
+					c.Count("sleep:misconfigured-interval")
+				}
 				if !(now < to) || to-from != T || from < pt {
 					c.Fail("c13/window-shape", fmt.Sprintf("window [%d,%d) now=%d pt=%d T=%d", from, to, now, pt, T), nil)
 				}
